@@ -1,9 +1,218 @@
 import UF.Driver.Decode
+import UF.Model.DnsRewriteParse
+import UF.Spec.DnsRewriteShape
+import UF.Model.HostRule
+import UF.Spec.HostLine
+import UF.Model.RequestNew
+import UF.Spec.Request
 /- Ops of work group H (see notes/AGENT_GUIDE.md). Return `none` for ops of other groups. -/
 namespace UF.Ops
+open UF
+
+/-! Encoders mirroring harness/wire.go (`waddr`, `wvalue`, `wrewrite`, `whostrule`, `wrequest`). -/
+
+def encAddr (a : Addr) : String := outList [outBool a.is4, toString a.val, outBytes a.zone]
+
+def encValue : RRVal → String
+  | .none => "_"
+  | .addr a => outList ["addr", outBool a.is4, toString a.val]
+  | .str s => outList ["str", outBytes s]
+  | .mx p e => outList ["mx", toString p, outBytes e]
+  | .srv p w po t => outList ["srv", toString p, toString w, toString po, outBytes t]
+  | .svcb p t ps =>
+    let params := match ps with
+      | none => "_"
+      | some kv => outList (kv.map fun (k, v) => outList [outBytes k, outBytes v])
+    outList ["svcb", toString p, outBytes t, params]
+
+def encRewrite (d : DnsRewrite) : String :=
+  outList [toString d.rcode, toString d.rrType, outBytes d.newCNAME, encValue d.value]
+
+/-- Answers are single tokens: blanks of the wire form become commas (as `tok` in the harness). -/
+def tok (s : String) : String := s.map fun c => if c == ' ' then ',' else c
+
+def encExcept {α} (enc : α → String) : Except HErr α → String
+  | .ok x => tok (enc x)
+  | .error .reject => "err"
+  | .error .panic => "PANIC"
+
+/-- `c10.dnsrw <value> <addr table>`: model = full dump of `loadDNSRewrite`; spec = the same
+    answer if it has the published shape, `BADSHAPE` otherwise. -/
+def opC10Dnsrw (args : List W) : String :=
+  match args with
+  | [v, addrs] =>
+    match v.bytes?, decAddrTable addrs with
+    | some v, some addrs =>
+      if !dnsRewriteInDomain v then "ood ood" else
+      let r := loadDNSRewrite (mkExt [] addrs []) v
+      let m := encExcept encRewrite r
+      let s := match r with
+        | .ok rw => if shapeOK rw then m else "BADSHAPE"
+        | _ => m
+      m ++ " " ++ s
+    | _, _ => "bad-decode"
+  | _ => "bad-arity"
+
+/-- `c10.shape <rewrite>`: the shape predicate on a rewrite the IMPLEMENTATION returned
+    (the harness expects `T`). -/
+def opC10Shape (args : List W) : String :=
+  match args with
+  | [rw] =>
+    match decRewrite rw with
+    | some (some rw) => let b := outBool (shapeOK rw); b ++ " " ++ b
+    | _ => "bad-decode"
+  | _ => "bad-arity"
+
+/-! ### C18 -/
+
+def encHostRule (h : HostRule) : String :=
+  outList ["H", outBytes h.text, toString h.listID, outList (h.hostnames.map outBytes), encAddr h.ip]
+
+/-- Oracle table for `filterutil.IsDomainName`: `((string bool)…)`. -/
+def decBoolTable (w : W) : Option (List (Bytes × Bool)) := do
+  let xs ← w.list?
+  xs.mapM fun e => match e with
+    | .l [h, b] => do pure (← h.bytes?, ← b.bool?)
+    | _ => none
+
+def isAsciiSpace (c : UInt8) : Bool := c == 9 || c == 10 || c == 11 || c == 12 || c == 13 || c == 32
+
+/-- `strings.TrimSpace` when, after removing ASCII white space from both ends, both end bytes
+    are ASCII (`none` = a byte ≥ 0x80 is reached at an end: Go switches to the Unicode trimming,
+    which is not modelled here). -/
+def trimSpaceAscii (s : Bytes) : Option Bytes :=
+  let t := ((s.dropWhile isAsciiSpace).reverse.dropWhile isAsciiSpace).reverse
+  match t.head?, t.getLast? with
+  | some a, some b => if a < 128 && b < 128 then some t else none
+  | _, _ => some t
+
+def specHostRecord (ext : Ext) (dn : Bytes → Bool) (line : Bytes) : String :=
+  match specHostLine ext dn line with
+  | some (names, a) => tok (encHostRule { text := line, listID := 1, hostnames := names, ip := a })
+  | none => "err"
+
+/-- `c18.hostline <line> <addr table> <dn table>`: `NewHostRule` vs model vs the token reference. -/
+def opC18Hostline (args : List W) : String :=
+  match args with
+  | [line, addrs, dns] =>
+    match line.bytes?, decAddrTable addrs, decBoolTable dns with
+    | some line, some addrs, some dns =>
+      let ext := mkExt [] addrs []
+      let dn := tableLookup dns false
+      encExcept encHostRule (newHostRule ext dn line 1) ++ " " ++ specHostRecord ext dn line
+    | _, _, _ => "bad-decode"
+  | _ => "bad-arity"
+
+/-- `c18.newrule <line> <addr table> <dn table>`: what `NewRule` makes of the line
+    (`skip` | `cos` | `net` | H record).  Spec: for lines outside the carve-out, the hosts reference. -/
+def opC18Newrule (args : List W) : String :=
+  match args with
+  | [line, addrs, dns] =>
+    match line.bytes?, decAddrTable addrs, decBoolTable dns with
+    | some line, some addrs, some dns =>
+      match trimSpaceAscii line with
+      | none => "ood ood"
+      | some line =>
+        let ext := mkExt [] addrs []
+        let dn := tableLookup dns false
+        let m := match newRuleKind ext dn line 1 with
+          | .skipped => "skip" | .cosmetic => "cos" | .network => "net" | .crash => "PANIC"
+          | .host r => tok (encHostRule r)
+        let s := if line.isEmpty || hostLineCarveOut line then "-" else
+          match specHostRecord ext dn line with
+          | "err" => "net"
+          | r => r
+        m ++ " " ++ s
+    | _, _, _ => "bad-decode"
+  | _ => "bad-arity"
+
+/-- `c18.dns <line> <addr table> <dn table> (<queried names>)`: one `DNSEngine` holding the line;
+    per query `<inV4><inV6>`; `nohost` when the line is not a host rule. -/
+def opC18Dns (args : List W) : String :=
+  match args with
+  | [line, addrs, dns, qs] =>
+    match line.bytes?, decAddrTable addrs, decBoolTable dns, qs.bytesList? with
+    | some line, some addrs, some dns, some qs =>
+      match trimSpaceAscii line with
+      | none => "ood ood"
+      | some line =>
+        let ext := mkExt [] addrs []
+        let dn := tableLookup dns false
+        let fmt (f : Bytes → Bool × Bool) : String :=
+          outList (qs.map fun q => let (a, b) := f q; outBool a ++ outBool b)
+        let m := match newRuleKind ext dn line 1 with
+          | .host r => tok (fmt fun q => (r.matches q && r.ip.is4, r.matches q && !r.ip.is4))
+          | _ => "nohost"
+        let s := if line.isEmpty || hostLineCarveOut line then "-" else
+          match specHostLine ext dn line with
+          | some (names, a) => tok (fmt (specHostAnswer names a))
+          | none => "nohost"
+        m ++ " " ++ s
+    | _, _, _, _ => "bad-decode"
+  | _ => "bad-arity"
+
+/-! ### C17 -/
+
+def encRequest (r : Request) : String :=
+  outList ["Q", outBytes r.url, outBytes r.urlLower, outBytes r.hostname, outBytes r.domain,
+    outBytes r.sourceURL, outBytes r.sourceHostname, outBytes r.sourceDomain,
+    outList (r.sortedTags.map outBytes), toString r.reqType, toString r.dnsType, outBool r.thirdParty,
+    outBool r.isHostnameRequest, outBytes r.clientName,
+    match r.clientIP with | none => "_" | some a => encAddr a]
+
+/-- `c17.req <url> <src> <type> <psl table>`: `NewRequest` vs model vs the reference request
+    (the latter only for URLs inside the grammar of the property). -/
+def opC17Req (args : List W) : String :=
+  match args with
+  | [url, src, ty, psl] =>
+    match url.bytes?, src.bytes?, ty.nat?, decPslTable psl with
+    | some url, some src, some ty, some psl =>
+      if !(Bytes.isAscii (url.take Facts.maxURLLength) && Bytes.isAscii (src.take Facts.maxURLLength)) then "ood ood" else
+      let ext := mkExt psl [] []
+      let s := match refRequest ext url src ty with
+        | some q => tok (encRequest q)
+        | none => "-"
+      encExcept encRequest (newRequest ext url src ty) ++ " " ++ s
+    | _, _, _, _ => "bad-decode"
+  | _ => "bad-arity"
+
+/-- `c17.hostreq <hostname> <psl table>`: `NewRequestForHostname`. -/
+def opC17Hostreq (args : List W) : String :=
+  match args with
+  | [h, psl] =>
+    match h.bytes?, decPslTable psl with
+    | some h, some psl =>
+      let ext := mkExt psl [] []
+      let s := if noEmptyLabel h then
+          tok (encRequest { url := lit "http://" ++ h, urlLower := lit "http://" ++ h, hostname := h,
+                            domain := refDomain ext h, reqType := Facts.TypeDocument, isHostnameRequest := true })
+        else "-"
+      encExcept encRequest (newRequestForHostname ext h) ++ " " ++ s
+    | _, _ => "bad-decode"
+  | _ => "bad-arity"
+
+/-- `c17.etld <hostname> <psl table>`: `effectiveTLDPlusOne` alone. -/
+def opC17Etld (args : List W) : String :=
+  match args with
+  | [h, psl] =>
+    match h.bytes?, decPslTable psl with
+    | some h, some psl =>
+      let ext := mkExt psl [] []
+      let s := if noEmptyLabel h then outBytes ((refETLD1 ext h).getD []) else "-"
+      encExcept outBytes (effectiveTLDPlusOne ext h) ++ " " ++ s
+    | _, _ => "bad-decode"
+  | _ => "bad-arity"
 
 def dispatchH (op : String) (args : List W) : Option String :=
-  match op, args with
-  | _, _ => none
+  match op with
+  | "c10.dnsrw" => some (opC10Dnsrw args)
+  | "c10.shape" => some (opC10Shape args)
+  | "c17.req" => some (opC17Req args)
+  | "c17.hostreq" => some (opC17Hostreq args)
+  | "c17.etld" => some (opC17Etld args)
+  | "c18.hostline" => some (opC18Hostline args)
+  | "c18.newrule" => some (opC18Newrule args)
+  | "c18.dns" => some (opC18Dns args)
+  | _ => none
 
 end UF.Ops
